@@ -205,6 +205,10 @@ def reset_initial_conditions(
 
     # Reset soil water conditions (if not running off-season)
     if ClockStruct.sim_off_season is False:
+        # Forget the evaporation/transpiration demand of the previous season's
+        # last day (used by the irrigation trigger on day 1)
+        InitCond.e_pot = 0
+        InitCond.t_pot = 0
         # Reset water content to starting conditions
         InitCond.th = np.array(InitCond.thini, dtype=float, copy=True)
         # Reset surface storage
